@@ -1,9 +1,118 @@
 (* C09 — no mutation of arguments, no aliasing of results.  Only statements, each closed by [exact] / computation. *)
 From Coq Require Import List String.
-From TV Require Import Model.Heap Proofs.HeapP Gen.SkelC09.
+From TV Require Import Model.Heap Proofs.HeapP Proofs.HeapP2 Gen.SkelC09.
 Import ListNotations.
 
 (* regenerated on every run from the source of teneva: every function variant reachable from the exported API passes
    the certificate check, and the checked summary of every exported function stays within the exception table *)
 Theorem C09_api_clean : api_ok skel_prog skel_api = true.
 Proof. vm_compute. reflexivity. Qed.
+
+(* soundness of the checker, for every program, every heap (closed, arguments allocated), every argument list, every
+   execution of the relational semantics with calls to any depth n: a function of a checked program meets the meaning
+   [callspec] of its summary (wr0, wr, esc, sto) *)
+Theorem C09_check_sound : forall (P : prog) (n g : nat) (f : fn) (H : heap) (args : list val) (H' : heap) (r : val),
+    check_prog P = true -> nth_error P g = Some f -> closed H -> allocated H args ->
+    sem P n g H args H' r -> callspec (summary_of f) H args H' r.
+Proof. exact check_sound. Qed.
+
+(* generic consequences for an API whose summaries are within the exception table *)
+Theorem C09_clean_writes : forall (P : prog) (api : list nat), api_ok P api = true ->
+    forall (n g : nat) (f : fn) (H : heap) (args : list val) (H' : heap) (r : val) (o : oid),
+    In g api -> nth_error P g = Some f -> closed H -> allocated H args -> sem P n g H args H' r ->
+    H o <> None ->
+    H' o = H o \/ exists p, may_write (fname f) (fflags f) (pname f p) = true /\ reach_from H [nth p args None] o.
+Proof. exact clean_writes. Qed.
+
+Theorem C09_clean_result : forall (P : prog) (api : list nat), api_ok P api = true ->
+    forall (n g : nat) (f : fn) (H : heap) (args : list val) (H' : heap) (o q : oid),
+    In g api -> nth_error P g = Some f -> closed H -> allocated H args -> sem P n g H args H' (Some o) ->
+    reach H' o q ->
+    H q = None \/ exists p, may_store (fname f) (fflags f) (pname f p) = true /\ reach_from H [nth p args None] q.
+Proof. exact clean_result. Qed.
+
+(* the property for teneva as it is NOW (skeletons regenerated from the source): an exported function leaves every object
+   of the caller's heap as it was (data, shape, element list) unless the object is reachable from a parameter the
+   exception table allows to be written ... *)
+Theorem C09_teneva_no_mutation :
+    forall (n g : nat) (f : fn) (H : heap) (args : list val) (H' : heap) (r : val) (o : oid),
+    In g skel_api -> nth_error skel_prog g = Some f -> closed H -> allocated H args -> sem skel_prog n g H args H' r ->
+    H o <> None ->
+    H' o = H o \/ exists p, may_write (fname f) (fflags f) (pname f p) = true /\ reach_from H [nth p args None] o.
+Proof. exact (clean_writes skel_prog skel_api C09_api_clean). Qed.
+
+(* ... and everything reachable from its result afterwards is an object that did not exist before the call, unless it was
+   reachable from a parameter the exception table allows to be handed back / stored *)
+Theorem C09_teneva_no_alias :
+    forall (n g : nat) (f : fn) (H : heap) (args : list val) (H' : heap) (o q : oid),
+    In g skel_api -> nth_error skel_prog g = Some f -> closed H -> allocated H args ->
+    sem skel_prog n g H args H' (Some o) -> reach H' o q ->
+    H q = None \/ exists p, may_store (fname f) (fflags f) (pname f p) = true /\ reach_from H [nth p args None] q.
+Proof. exact (clean_result skel_prog skel_api C09_api_clean). Qed.
+
+(* functions whose checked summary is empty (no exception applies): nothing changes, the result is entirely new *)
+Theorem C09_pure_unchanged : forall (P : prog) (n g : nat) (f : fn) (H : heap) (args : list val) (H' : heap) (r : val) (o : oid),
+    check_prog P = true -> nth_error P g = Some f -> summary_of f = ([], [], [], []) ->
+    closed H -> allocated H args -> sem P n g H args H' r -> H o <> None -> H' o = H o.
+Proof. exact pure_unchanged. Qed.
+
+Theorem C09_pure_result_new : forall (P : prog) (n g : nat) (f : fn) (H : heap) (args : list val) (H' : heap) (o q : oid),
+    check_prog P = true -> nth_error P g = Some f -> summary_of f = ([], [], [], []) ->
+    closed H -> allocated H args -> sem P n g H args H' (Some o) -> reach H' o q -> H q = None.
+Proof. exact pure_result_new. Qed.
+
+(* "later writes to either side cannot affect the other", for teneva as it is now: an argument object a that shares nothing
+   with the exempt arguments of the call (info / cache, Y of an inplace orthogonalisation, the pass-through helpers) keeps
+   everything it reaches unchanged, and no object is reachable both from the result and from a after the call *)
+Theorem C09_teneva_separate_unchanged :
+    forall (n g : nat) (f : fn) (H : heap) (args : list val) (H' : heap) (r : val) (a o : oid),
+    In g skel_api -> nth_error skel_prog g = Some f -> closed H -> allocated H args -> sem skel_prog n g H args H' r ->
+    H a <> None -> separate f H args a -> reach H a o -> H' o = H o.
+Proof. exact (separate_unchanged skel_prog skel_api C09_api_clean). Qed.
+
+Theorem C09_teneva_disjoint :
+    forall (n g : nat) (f : fn) (H : heap) (args : list val) (H' : heap) (res a q : oid),
+    In g skel_api -> nth_error skel_prog g = Some f -> closed H -> allocated H args ->
+    sem skel_prog n g H args H' (Some res) ->
+    H a <> None -> separate f H args a -> reach H' res q -> reach H' a q -> False.
+Proof. exact (separate_disjoint skel_prog skel_api C09_api_clean). Qed.
+
+(* the same for any checked program, and for functions with an empty summary without any side condition *)
+Theorem C09_separate_disjoint : forall (P : prog) (api : list nat), api_ok P api = true ->
+    forall (n g : nat) (f : fn) (H : heap) (args : list val) (H' : heap) (res a q : oid),
+    In g api -> nth_error P g = Some f -> closed H -> allocated H args -> sem P n g H args H' (Some res) ->
+    H a <> None -> separate f H args a -> reach H' res q -> reach H' a q -> False.
+Proof. exact separate_disjoint. Qed.
+
+Theorem C09_pure_disjoint : forall (P : prog) (n g : nat) (f : fn) (H : heap) (args : list val) (H' : heap) (res a q : oid),
+    check_prog P = true -> nth_error P g = Some f -> summary_of f = ([], [], [], []) ->
+    closed H -> allocated H args -> sem P n g H args H' (Some res) ->
+    In (Some a) args -> reach H' res q -> reach H' a q -> False.
+Proof. exact pure_disjoint. Qed.
+
+(* non-vacuity.  The semantics HAS executions that modify an argument / return it / return a fresh list holding it, and
+   the checker rejects each of these skeletons; a copy-then-scale function is accepted and has an execution from a heap
+   that satisfies the hypotheses of the theorems. *)
+Example C09_ex_mutation_exists :
+  sem [ex_mutator] 1 0 ex_heap [Some 0] (upd ex_heap 0 (Some (mkobj 7 []))) None
+  /\ upd ex_heap 0 (Some (mkobj 7 [])) 0 <> ex_heap 0.
+Proof. exact ex_mutator_runs. Qed.
+Example C09_ex_mutation_rejected : check_prog [ex_mutator] = false.
+Proof. exact ex_mutator_rejected. Qed.
+Example C09_ex_alias_exists : sem [ex_aliaser] 1 0 ex_heap [Some 0] ex_heap (Some 0).
+Proof. exact ex_aliaser_runs. Qed.
+Example C09_ex_alias_rejected : check_prog [ex_aliaser] = false.
+Proof. exact ex_aliaser_rejected. Qed.
+Example C09_ex_wrapped_alias_exists :
+  sem [ex_wrapper] 1 0 ex_heap [Some 0] (upd ex_heap 1 (Some (mkobj 0 [0]))) (Some 1)
+  /\ reach (upd ex_heap 1 (Some (mkobj 0 [0]))) 1 0.
+Proof. exact ex_wrapper_runs. Qed.
+Example C09_ex_wrapped_alias_rejected : check_prog [ex_wrapper] = false.
+Proof. exact ex_wrapper_rejected. Qed.
+Example C09_ex_copy_accepted : api_ok [ex_copier] [0] = true.
+Proof. exact ex_copier_accepted. Qed.
+Example C09_ex_copy_runs :
+  sem [ex_copier] 1 0 ex_heap [Some 0] (upd (upd ex_heap 1 (Some (mkobj 0 []))) 1 (Some (mkobj 9 []))) (Some 1).
+Proof. exact ex_copier_runs. Qed.
+Example C09_ex_hypotheses : closed ex_heap /\ allocated ex_heap [Some 0].
+Proof. exact (conj ex_heap_closed ex_heap_alloc). Qed.
